@@ -702,16 +702,16 @@ Proof.
     + apply (A4 rc (k_key k)). unfold kmap_get_or_empty. rewrite Hfound. exact Hx.
 Qed.
 
-Theorem histories_order_free r s teq ops1 ops2 m1 m2 :
+Lemma histories_hyps s ops1 ops2 :
   Permutation (filter is_derive_op ops1) (filter is_derive_op ops2) ->
   (forall p, subs_get (b_subs (fst (run_ops ops1))) p = subs_get (b_subs (fst (run_ops ops2))) p) ->
   key_functional (history_args ops1 ++ opt_list (s_compact_as s)) ->
-  generate r (with_state s (fst (run_ops ops1))) teq = Ok m1 ->
-  generate r (with_state s (fst (run_ops ops2))) teq = Ok m2 ->
-  emit_module (with_state s (fst (run_ops ops1))) m1 = emit_module (with_state s (fst (run_ops ops2))) m2.
+  let s1 := with_state s (fst (run_ops ops1)) in
+  let s2 := with_state s (fst (run_ops ops2)) in
+  settings_same s1 s2 /\ dreg_same (s_dreg s1) (s_dreg s2) /\
+  well_keyed (s_dreg s1) (s_dreg s2) (s_compact_as s1).
 Proof.
-  intros P Hsubs KF H1 H2.
-  apply (generate_order_free r _ _ teq m1 m2); auto.
+  intros P Hsubs KF. cbv zeta. split; [|split].
   - unfold settings_same, with_state. cbn. auto 10.
   - cbn [with_state s_dreg]. apply dreg_equiv_same, order_irrelevant; exact P.
   - cbn [with_state s_dreg s_compact_as].
@@ -725,6 +725,18 @@ Proof.
       apply in_app_or in Hx as [Hx|Hx].
       * eapply dreg_all_history; [right; reflexivity|exact Hx].
       * apply HP. eapply dreg_all_history; [right; reflexivity|exact Hx].
+Qed.
+
+Theorem histories_order_free r s teq ops1 ops2 m1 m2 :
+  Permutation (filter is_derive_op ops1) (filter is_derive_op ops2) ->
+  (forall p, subs_get (b_subs (fst (run_ops ops1))) p = subs_get (b_subs (fst (run_ops ops2))) p) ->
+  key_functional (history_args ops1 ++ opt_list (s_compact_as s)) ->
+  generate r (with_state s (fst (run_ops ops1))) teq = Ok m1 ->
+  generate r (with_state s (fst (run_ops ops2))) teq = Ok m2 ->
+  emit_module (with_state s (fst (run_ops ops1))) m1 = emit_module (with_state s (fst (run_ops ops2))) m2.
+Proof.
+  intros P Hsubs KF H1 H2. destruct (histories_hyps s ops1 ops2 P Hsubs KF) as (A & B & C).
+  apply (generate_order_free r _ _ teq m1 m2); auto.
 Qed.
 
 (** ** 7. [ensure_unique]: the renaming does not depend on the order of the path groups *)
@@ -985,4 +997,148 @@ Proof.
   { induction l as [|[id t] l IH]; intros idx; cbn [rename_go]; [reflexivity|].
     rewrite (build_groups_suffix_perm r m m' Hb P idx), IH. reflexivity. }
   apply G.
+Qed.
+
+(** ** 9. the outcome as a whole (errors and panics included) is order free *)
+Definition res_rel {A B} (R : A -> B -> Prop) (x : result A) (y : result B) : Prop :=
+  match x, y with
+  | Ok a, Ok b => R a b
+  | Err e1, Err e2 => e1 = e2
+  | Panic a, Panic b => a = b
+  | _, _ => False
+  end.
+
+Definition generate_tokens (r : registry) (s : settings) (teq : N -> N -> result bool)
+  : result tokens :=
+  let* m := generate r s teq in emit_module s m.
+
+Lemma roots_go_rel rc1 rc2 r :
+  (forall key, kmap_get rc1 key = None <-> kmap_get rc2 key = None) ->
+  forall l acc1 acc2,
+    res_rel (fun _ _ => True) (roots_go rc1 r l acc1) (roots_go rc2 r l acc2).
+Proof.
+  intros Hn. induction l as [|[id [k|]] l IH]; intros acc1 acc2; cbn [roots_go].
+  - exact I.
+  - destruct (kmap_get rc1 k) as [d1|] eqn:G1, (kmap_get rc2 k) as [d2|] eqn:G2.
+    + destruct (collect_type_ids r id) as [ids| |]; cbn [bind]; [apply IH|reflexivity|reflexivity].
+    + apply Hn in G2. congruence.
+    + apply Hn in G1. congruence.
+    + apply IH.
+  - apply IH.
+Qed.
+
+Lemma flatten_rel dr1 dr2 r :
+  dreg_same dr1 dr2 -> res_rel (fun _ _ => True) (flatten dr1 r) (flatten dr2 r).
+Proof.
+  intros (_ & _ & H3).
+  assert (Hn : forall key, kmap_get (dr_recursive dr1) key = None <-> kmap_get (dr_recursive dr2) key = None)
+    by (intros key; apply (H3 key)).
+  rewrite !flatten_unfold.
+  destruct (dr_recursive dr1) as [|[k1 d1] rc1] eqn:E1, (dr_recursive dr2) as [|[k2 d2] rc2] eqn:E2.
+  - exact I.
+  - exfalso. specialize (Hn (k_key k2)). cbn [kmap_get fst] in Hn.
+    rewrite String.eqb_refl in Hn. destruct Hn as [Hn _]. specialize (Hn eq_refl). discriminate.
+  - exfalso. specialize (Hn (k_key k1)). cbn [kmap_get fst] in Hn.
+    rewrite String.eqb_refl in Hn. destruct Hn as [_ Hn]. specialize (Hn eq_refl). discriminate.
+  - destruct (mapM key_entry r) as [keys| |]; cbn [bind]; try reflexivity.
+    pose proof (roots_go_rel _ _ r Hn keys [] []) as R.
+    destruct (roots_go ((k1, d1) :: rc1) r keys []) as [a1| |],
+             (roots_go ((k2, d2) :: rc2) r keys []) as [a2| |]; cbn [bind]; cbn in R; auto.
+Qed.
+
+Lemma create_type_ir_rel r s1 s2 fl1 fl2 t :
+  settings_same s1 s2 -> flats_tokens_same s1 s2 fl1 fl2 ->
+  res_rel (fun o1 o2 => match o1, o2 with
+                        | None, None => True
+                        | Some a, Some b => ir_equiv a b
+                        | _, _ => False
+                        end)
+          (create_type_ir r s1 t fl1) (create_type_ir r s2 t fl2).
+Proof.
+  intros Hsame Hfl. rewrite !create_type_ir_shape, (type_shape_same r s1 s2 t Hsame).
+  destruct (type_shape r s2 t) as [[[[kind cdac] unused]|]| |]; cbn [bind];
+    [|exact I|reflexivity|reflexivity].
+  unfold resolve_derives_for_type.
+  destruct (syn_type_path_key (t_path t)) as [k| |]; cbn [bind]; [|reflexivity|reflexivity].
+  - unfold res_rel, ir_equiv. cbn [ti_params ti_unused ti_codec ti_kind ti_derives].
+    destruct Hsame as (_ & _ & _ & _ & _ & _ & Hcodec & _).
+    repeat (split; [auto|]). destruct (Hfl k) as [A B]. destruct cdac; assumption.
+Qed.
+
+Lemma gen_loop_rel r s1 s2 teq fl1 fl2 :
+  settings_same s1 s2 -> flats_tokens_same s1 s2 fl1 fl2 ->
+  forall l acc1 acc2,
+    items_equiv acc1 acc2 ->
+    res_rel items_equiv (gen_loop r s1 teq fl1 l acc1) (gen_loop r s2 teq fl2 l acc2).
+Proof.
+  intros Hsame Hfl. induction l as [|[id t] l IH]; intros acc1 acc2 Hacc.
+  - cbn. exact Hacc.
+  - rewrite !gen_loop_cons. rewrite <- (subs_contains_same s1 s2 Hsame).
+    destruct (subs_contains (s_subs s1) (t_path t)); [apply IH; exact Hacc|].
+    destruct (namespace (t_path t)) as [|n0 ns]; [apply IH; exact Hacc|].
+    pose proof (create_type_ir_rel r s1 s2 fl1 fl2 t Hsame Hfl) as Ho.
+    destruct (create_type_ir r s1 t fl1) as [[a|]| |], (create_type_ir r s2 t fl2) as [[b|]| |];
+      cbn [bind]; cbn in Ho; try contradiction; try exact Ho; [|apply IH; exact Hacc].
+    destruct (forallb ident_lexb (n0 :: ns)); [|reflexivity].
+    pose proof (items_get_equiv _ _ (t_path t) Hacc) as Hg.
+    destruct (items_get acc1 (t_path t)) as [[i1 a']|], (items_get acc2 (t_path t)) as [[i2 b']|];
+      try contradiction.
+    + destruct Hg as [<- _].
+      destruct (teq id i1) as [[|]| |]; cbn [bind]; try reflexivity. apply IH; exact Hacc.
+    + apply IH. apply items_insert_equiv; assumption.
+Qed.
+
+(** C06 [output_order_free]: the whole outcome - tokens, or the error, or the panic - is the
+    same for settings that are equal as finite maps of finite sets *)
+Theorem generate_tokens_order_free r s1 s2 teq :
+  settings_same s1 s2 -> dreg_same (s_dreg s1) (s_dreg s2) ->
+  well_keyed (s_dreg s1) (s_dreg s2) (s_compact_as s1) ->
+  generate_tokens r s1 teq = generate_tokens r s2 teq.
+Proof.
+  intros Hsame Hd Hwk. unfold generate_tokens, generate.
+  destruct (sanity_pass r) as [u| |]; cbn [bind]; try reflexivity.
+  pose proof (flatten_rel _ _ r Hd) as Hf.
+  destruct (flatten (s_dreg s1) r) as [fl1| |] eqn:F1, (flatten (s_dreg s2) r) as [fl2| |] eqn:F2;
+    cbn [bind]; cbn in Hf; try contradiction; try (rewrite Hf; reflexivity).
+  assert (Hca : s_compact_as s1 = s_compact_as s2) by apply Hsame.
+  assert (Hfl : flats_tokens_same s1 s2 fl1 fl2).
+  { intros k. eapply resolve_tokens_order_free; eauto. }
+  pose proof (gen_loop_rel r s1 s2 teq fl1 fl2 Hsame Hfl r [] [] (Forall2_nil _)) as Hg.
+  destruct (gen_loop r s1 teq fl1 r []) as [m1| |], (gen_loop r s2 teq fl2 r []) as [m2| |];
+    cbn [bind]; cbn in Hg; try contradiction; try (rewrite Hg; reflexivity).
+  apply emit_module_equiv; [apply Hsame|apply Hsame|exact Hg].
+Qed.
+
+(** permuted registration histories: the whole outcome is the same *)
+Theorem histories_tokens_order_free r s teq ops1 ops2 :
+  Permutation (filter is_derive_op ops1) (filter is_derive_op ops2) ->
+  (forall p, subs_get (b_subs (fst (run_ops ops1))) p = subs_get (b_subs (fst (run_ops ops2))) p) ->
+  key_functional (history_args ops1 ++ opt_list (s_compact_as s)) ->
+  generate_tokens r (with_state s (fst (run_ops ops1))) teq =
+  generate_tokens r (with_state s (fst (run_ops ops2))) teq.
+Proof.
+  intros P Hsubs KF. destruct (histories_hyps s ops1 ops2 P Hsubs KF) as (A & B & C).
+  apply generate_tokens_order_free; assumption.
+Qed.
+
+(** the substitute calls of a history determine the substitute lookups: histories with the
+    same sub-history of substitute calls answer every lookup alike *)
+Lemma rule_step_derive_op k cur o : is_derive_op o = true -> rule_step k cur o = cur.
+Proof. destruct o; cbn; try discriminate; reflexivity. Qed.
+
+Lemma spec_rule_filter ops k :
+  spec_rule ops k = spec_rule (filter (fun o => negb (is_derive_op o)) ops) k.
+Proof.
+  unfold spec_rule. generalize (@None substitute).
+  induction ops as [|o ops IH]; intros cur; cbn [filter fold_left]; [reflexivity|].
+  destruct (is_derive_op o) eqn:D; cbn [negb fold_left].
+  - rewrite (rule_step_derive_op k cur o D). apply IH.
+  - apply IH.
+Qed.
+
+Theorem same_sub_history_same_lookups ops1 ops2 :
+  filter (fun o => negb (is_derive_op o)) ops1 = filter (fun o => negb (is_derive_op o)) ops2 ->
+  forall p, subs_get (b_subs (fst (run_ops ops1))) p = subs_get (b_subs (fst (run_ops ops2))) p.
+Proof.
+  intros E p. rewrite !rule_for_key, (spec_rule_filter ops1), (spec_rule_filter ops2), E. reflexivity.
 Qed.
